@@ -302,17 +302,21 @@ def rule_E(ctx):
 
 
 def _resolver(ctx, module, stubs):
-    """orders resolver: calls to module-level repository functions of `module` are interpreted (helpers extracted by a refactoring)"""
-    funcs = dict(stubs)
+    """orders resolver: calls to module-level repository functions of `module` are interpreted (helpers extracted by a refactoring),
+    module-level constants are read from the module"""
+    from .. import absint
+    funcs = absint.funcs(ctx, module, dict(stubs))
+    base_resolve = funcs['__resolve__']
 
     def resolve(call, fname):
+        if fname in stubs:
+            return stubs[fname]
         if isinstance(call.func, ast.Name):
             fi = ctx.prog.maybe_func(module + '.' + fname)
             if fi is not None and fi.cls is None:
                 return orders.make_func(fi.node, funcs)
-        return None
+        return base_resolve(call, fname)
     funcs['__resolve__'] = resolve
-    funcs.update({'sqrt': __import__('math').sqrt, 'fabs': abs, 'floor': __import__('math').floor})
     return funcs
 
 
@@ -556,12 +560,162 @@ def rule_W(ctx):
               witness=bad, node=g.node, key='mapOnTrack')
 
 
+def rule_M(ctx):
+    """C20.M the whole chain mapOnTrack -> __projOnTrack -> proj_polyligne -> proj_segment interpreted on configuration classes of
+    (reference polyline, query point): query nearest to the interior of a segment / to a vertex / exactly on a vertex / beyond the first
+    or the last vertex / on the polyline; polylines with an acute turn, a repeated vertex, a long segment straddling the query after a
+    nearer short one (no exactly vertical segment: that is the recorded finding C20.F)"""
+    import math
+    from .. import absint
+    g = ctx.prog.func(MAP + '.mapOnTrack')
+
+    class P(orders.PyStub):
+        isa = ('ENUCoords',)
+
+        def __init__(self, x, y, z=0.0):
+            self.x, self.y = float(x), float(y)
+
+        def getX(self):
+            return self.x
+
+        def getY(self):
+            return self.y
+
+        def getZ(self):
+            return 0.0
+
+        def copy(self):
+            return P(self.x, self.y)
+
+        def distance2DTo(self, o):
+            return math.hypot(self.x - o.x, self.y - o.y)
+
+        distanceTo = distance2DTo
+
+    class O(orders.PyStub):
+        isa = ('Obs',)
+
+        def __init__(self, position, timestamp=None):
+            self.position = position
+            self.timestamp = timestamp
+
+    class Track(orders.PyStub):
+        __module__ = 'tracklib.core.track'
+        isa = ('Track',)
+
+        def __init__(self, obs=None, *a, **k):
+            self.obs = list(obs or [])
+            self.af = {}
+
+        def __len__(self):
+            return len(self.obs)
+
+        def size(self):
+            return len(self.obs)
+
+        def __getitem__(self, i):
+            if isinstance(i, tuple):
+                return self.af[i[0]][i[1]]
+            if not isinstance(i, int) or not -len(self.obs) <= i < len(self.obs):
+                raise IndexError('observation %r of a track of %d' % (i, len(self.obs)))
+            return self.obs[i]
+
+        def getObs(self, i):
+            return self[i]
+
+        def getX(self):
+            return [o.position.x for o in self.obs]
+
+        def getY(self):
+            return [o.position.y for o in self.obs]
+
+        def addObs(self, o):
+            self.obs.append(o)
+
+        def createAnalyticalFeature(self, name, val=0.0):
+            if name not in self.af:
+                self.af[name] = list(val) if isinstance(val, list) else [val] * len(self.obs)
+
+        def setObsAnalyticalFeature(self, name, i, v):
+            self.af[name][i] = v
+
+        def getObsAnalyticalFeature(self, name, i):
+            return self.af[name][i]
+    Track.__qualname__ = Track.__name__ = 'Track'
+    fn = absint.funcs(ctx, MAP, {'Track': Track, 'Obs': O, 'ENUCoords': P})
+    fn['__globals__'].update({'Track': Track})
+
+    def seg_dist(q, a, b):
+        dx, dy = b[0] - a[0], b[1] - a[1]
+        l2 = dx * dx + dy * dy
+        if l2 == 0:
+            return math.hypot(q[0] - a[0], q[1] - a[1])
+        t = max(0.0, min(1.0, ((q[0] - a[0]) * dx + (q[1] - a[1]) * dy) / l2))
+        return math.hypot(q[0] - (a[0] + t * dx), q[1] - (a[1] + t * dy))
+    lines = {
+        'L-shaped line': [(0, 0), (10, 1), (12, 11)],
+        'acute zig-zag': [(0, 0), (10, 2), (1, 4), (11, 6)],
+        'line with a repeated vertex': [(0, 0), (6, 1), (6, 1), (12, 0)],
+        'a short near segment followed by a long one straddling the query': [(0, 4), (1, 5), (-20, 9), (20, 1.5)],
+        'single segment': [(2, 1), (9, 4)],
+    }
+    queries = {
+        'L-shaped line': [(5, 3), (10, 1), (12, 11), (0, 0), (-4, -1), (13, 15), (11, 6), (10.5, 0), (4, -6)],
+        'acute zig-zag': [(5, 1), (10, 2), (1, 4), (11, 6), (14, 7), (5.5, 3), (-3, -1), (12, 2.2)],
+        'line with a repeated vertex': [(6, 1), (3, 4), (9, -3), (6, 5), (20, -1)],
+        'a short near segment followed by a long one straddling the query': [(0.2, 5.3), (0, 5.2), (3, 4.9)],
+        'single segment': [(2, 1), (9, 4), (0, 0), (12, 6), (5, 9), (5.5, 2.5)],
+    }
+    bad = None
+    n_cases = 0
+    run = orders.make_func(g.node, fn)
+    for lname, pts in lines.items():
+        ref = Track([O(P(*p_)) for p_ in pts])
+        qs = queries[lname]
+        src = Track([O(P(*q_)) for q_ in qs])
+        try:
+            out = run(src, ref)
+            singles = [run(P(*q_), ref) for q_ in qs]
+        except orders.Unsupported as ex:
+            raise shape_error('mapOnTrack not interpretable: %s' % ex, g.loc())
+        except (IndexError, KeyError, TypeError, AttributeError, ZeroDivisionError, ValueError, orders.Raised) as ex:
+            bad = bad or {'reference polyline': lname, 'vertices': [list(p_) for p_ in pts], 'queries': [list(q_) for q_ in qs],
+                          'exception': '%s: %s' % (type(ex).__name__, str(ex)[:200])}
+            continue
+        if not isinstance(out, Track) or len(out.obs) != len(qs) or 'dist' not in out.af or 'edge' not in out.af:
+            raise shape_error('mapOnTrack(track, track): result not understood', g.loc())
+        for k, q_ in enumerate(qs):
+            n_cases += 1
+            want = min(seg_dist(q_, pts[j], pts[j + 1]) for j in range(len(pts) - 1))
+            for form, (pp, dd, ee) in (('track form', (out.obs[k].position, out.af['dist'][k], out.af['edge'][k])), ('single-coordinate form', singles[k] if isinstance(singles[k], tuple) and len(singles[k]) == 3 else (None, None, None))):
+                ok = isinstance(pp, P) and isinstance(dd, (int, float)) and isinstance(ee, int) and not isinstance(ee, bool) and 0 <= ee < len(pts) - 1
+                why = 'the segment index designates a segment of the reference polyline (0 .. %d)' % (len(pts) - 2)
+                if ok:
+                    on = seg_dist((pp.x, pp.y), pts[ee], pts[ee + 1])
+                    dq = math.hypot(q_[0] - pp.x, q_[1] - pp.y)
+                    tol = 1e-9 * max(1.0, want)
+                    if on > 1e-9:
+                        ok, why = False, 'the returned point lies on the segment whose index is returned'
+                    elif abs(dd - dq) > tol:
+                        ok, why = False, 'the returned distance is the distance from the query to the returned point'
+                    elif abs(dd - want) > tol:
+                        ok, why = False, 'no point of the polyline is closer to the query than the returned one'
+                if not ok and bad is None:
+                    bad = {'reference polyline': lname, 'vertices': [list(p_) for p_ in pts], 'query': list(q_), 'form': form,
+                           'returned (point, distance, segment index)': [[pp.x, pp.y] if isinstance(pp, P) else repr(pp), dd, ee],
+                           'distance to the nearest point of the polyline': want, 'violated': why}
+    ctx.check(bad is None, 'C20.M', g, 'mapOnTrack returns, for every query, the nearest point of the reference polyline, its distance and the index of a segment '
+              'that carries it (%d query/polyline configurations, track and single-coordinate forms)' % n_cases,
+              witness=bad, node=g.node, key='mapOnTrack-geometry')
+
+
 RULES = [
     ('C20.L', rule_L, 'quick'),
     ('C20.F', rule_F, 'quick'),
     ('C20.D', rule_D, 'quick'),
     ('C20.E', rule_E, 'quick'),
     ('C20.P', rule_P, 'quick'),
-    ('C20.W', rule_W, 'quick'),
+    ('C20.W', rule_W, 'quick', 'advisory'),
+    ('C20.M', rule_M, 'quick'),
 ]
 MIN_OBLIGATIONS = 15
